@@ -41,4 +41,10 @@ CHECKS['C14'] = {
     'design_ref': 'DESIGN.md §4 C14',
 }
 
+CHECKS['C01'] = {
+    'technique': 'static analysis: dominance / must-pass-through rules on Core::process and the two executor loops, provenance of forwarded outputs, linear-resource rule over drop-elaborated MIR with a frozen exception table',
+    'text': 'Static rule instances over built and drop-elaborated MIR of crux_core: the process loop shape (run before look, re-run after every update/spawn, return only on an empty event channel, return the plain drain of the effect channel), every entry point settling through Core::process, no effect/event/request/command/response value dropped on a normal path outside a frozen exception table, every match on CommandOutput forwarding both kinds to the right channel, and both executor loops exiting only after an idle pass. Necessary conditions on all paths; reaching the fixpoint for every program and schedule is not decided.',
+    'design_ref': 'DESIGN.md §4 C01',
+}
+
 PENDING_REASON = 'check not yet armed in this framework (static rules designed in DESIGN.md §4; implementation in progress)'
